@@ -199,32 +199,24 @@ theorem cn_setCn_idle (n : N) (w : Who) (c : Cn) (h1 : c.st ≠ .connecting) (h2
   | kn => exact ⟨h1, h2⟩
   | raw => exact ⟨h1, h2⟩
 
-/-- `cnFail` / `cnEnter` started with no timer pending leave every connector consistent -/
-theorem UI_cnFail (cfg : Cfg) (hf : cfg.fix = true ∧ cfg.fix2 = true ∧ cfg.fix3 = true) (n : N) (w : Who) (h : UIbut (slot w) n)
-    (hd : (n.cn w).deadline = none) : UI (cnFail cfg n w).1 := by
-  unfold cnFail; simp only
-  split
-  · exact h.setCn _ ⟨by simp [hf], by simp [hf, hd]⟩
-  · exact (h.setCn _ ⟨by simp, by simp⟩).same ⟨rfl, rfl, rfl, rfl⟩
+/-- a connector that is neither Connecting nor in Delay has no write event and no timer -/
+theorem CnOk.idle {c : Cn} (h : CnOk c) (h1 : c.st ≠ .connecting) (h2 : c.st ≠ .delay) :
+    c.pend = none ∧ c.deadline = none := by
+  constructor
+  · cases hp : c.pend with
+    | none => rfl
+    | some l => exact absurd (h.1.mp (by simp [hp])) h1
+  · cases hd : c.deadline with
+    | none => rfl
+    | some d => exact absurd (h.2.mp (by simp [hd])) h2
 
-theorem UI_cnEnter (cfg : Cfg) (hf : cfg.fix = true ∧ cfg.fix2 = true ∧ cfg.fix3 = true) (n : N) (w : Who) (h : UIbut (slot w) n)
-    (hd : (n.cn w).deadline = none) : UI (cnEnter cfg n w).1 := by
-  unfold cnEnter
+theorem cnStop_idle (n : N) (w : Who) : ((cnStop n w).cn w).st ≠ .connecting ∧ ((cnStop n w).cn w).st ≠ .delay := by
+  unfold cnStop; simp only
   split
-  · simp only [hf.2.2, if_true]
-    have h0 : UIbut (slot w) ({ n with sockFail := n.sockFail - 1 } : N) := h.same ⟨rfl, rfl, rfl, rfl⟩
-    exact UI_cnFail cfg hf _ w h0 (by cases w <;> exact hd)
-  · split
-    · have h0 : UIbut (slot w) ({ n with connFail := n.connFail - 1 } : N) := h.same ⟨rfl, rfl, rfl, rfl⟩
-      exact UI_cnFail cfg hf _ w h0 (by cases w <;> exact hd)
-    · split
-      · simp only
-        have h1 : UIbut (slot w) ({ n with links := n.links ++ [({ who := w } : Link)], backlog := n.backlog ++ [n.links.length] } : N) :=
-          h.same ⟨rfl, rfl, rfl, rfl⟩
-        have hd1 : (({ n with links := n.links ++ [({ who := w } : Link)], backlog := n.backlog ++ [n.links.length] } : N).cn w).deadline = none := by
-          cases w <;> exact hd
-        exact ((h1.setCn _ ⟨by simp, by simp [hd1]⟩).push _).push _
-      · exact UI_cnFail cfg hf n w h hd
+  · exact cn_setCn_idle _ _ _ (by simp) (by simp)
+  · exact cn_setCn_idle _ _ _ (by simp) (by simp)
+  · rename_i h1 h2
+    exact ⟨fun h => h1 h, fun h => h2 h⟩
 
 theorem UI_cnStop (n : N) (w : Who) (h : UI n) : UI (cnStop n w) := by
   have hc := h.cn w
@@ -250,6 +242,52 @@ theorem UI_cnStop (n : N) (w : Who) (h : UI n) : UI (cnStop n w) := by
     · rename_i hn; cases hd : (n.cn w).deadline <;> simp_all
     · exact (h.but (slot w)).setCn _ ⟨by simp [hpn], by simp⟩
   · exact h
+
+theorem UI_knCleanup (n : N) (h : UI n) : UI (knCleanup n) := by
+  unfold knCleanup; split
+  · exact h
+  · have h1 := UI_cnStop n .kn h
+    have hid := cnStop_idle n .kn
+    have hi := h1.kn.idle hid.1 hid.2
+    exact ⟨h1.uaf, h1.c0, h1.c1, ⟨by simp; exact hi.1, by simp; exact hi.2⟩⟩
+
+/-- `cnFail` / `cnEnter` started with no timer pending leave every connector consistent -/
+theorem UI_cnFail (cfg : Cfg) (hf : cfg.fix = true ∧ cfg.fix2 = true ∧ cfg.fix3 = true) (n : N) (w : Who) (h : UIbut (slot w) n)
+    (hd : (n.cn w).deadline = none) : UI (cnFail cfg n w).1 := by
+  unfold cnFail; simp only
+  split
+  · exact h.setCn _ ⟨by simp [hf], by simp [hf, hd]⟩
+  · have ha : UI ({ (n.setCn w { ({ n.cn w with fails := (n.cn w).fails + 1, pend := none } : Cn) with
+        st := .delay, deadline := some (n.now + 1000 * ({ n.cn w with fails := (n.cn w).fails + 1, pend := none } : Cn).delayOf ((n.cn w).fails + 1)), seq := n.tick }) with tick := n.tick + 1 } : N) :=
+      (h.setCn _ ⟨by simp, by simp⟩).same ⟨rfl, rfl, rfl, rfl⟩
+    split
+    · split
+      · split
+        · split
+          · exact UI_knCleanup _ ha
+          · exact (UI_cnStop _ _ ha).ev _
+        · rename_i hfx; exact absurd hf.1 hfx
+      · exact ha
+    · exact ha
+
+theorem UI_cnEnter (cfg : Cfg) (hf : cfg.fix = true ∧ cfg.fix2 = true ∧ cfg.fix3 = true) (n : N) (w : Who) (h : UIbut (slot w) n)
+    (hd : (n.cn w).deadline = none) : UI (cnEnter cfg n w).1 := by
+  unfold cnEnter
+  split
+  · simp only [hf.2.2, if_true]
+    have h0 : UIbut (slot w) ({ n with sockFail := n.sockFail - 1 } : N) := h.same ⟨rfl, rfl, rfl, rfl⟩
+    exact UI_cnFail cfg hf _ w h0 (by cases w <;> exact hd)
+  · split
+    · have h0 : UIbut (slot w) ({ n with connFail := n.connFail - 1 } : N) := h.same ⟨rfl, rfl, rfl, rfl⟩
+      exact UI_cnFail cfg hf _ w h0 (by cases w <;> exact hd)
+    · split
+      · simp only
+        have h1 : UIbut (slot w) ({ n with links := n.links ++ [({ who := w } : Link)], backlog := n.backlog ++ [n.links.length] } : N) :=
+          h.same ⟨rfl, rfl, rfl, rfl⟩
+        have hd1 : (({ n with links := n.links ++ [({ who := w } : Link)], backlog := n.backlog ++ [n.links.length] } : N).cn w).deadline = none := by
+          cases w <;> exact hd
+        exact ((h1.setCn _ ⟨by simp, by simp [hd1]⟩).push _).push _
+      · exact UI_cnFail cfg hf n w h hd
 
 
 /-! ### the API calls, the callback scripts, the notifications -/
@@ -328,25 +366,6 @@ theorem UI_clStop (n : N) (i : Nat) (h : UI n) : UI (clStop n i) := by
     · exact (h.setClient i { n.client i with st := .inited, link := none } (client_cnOk h i)).ev _
   · exact h
 
-/-- a connector that is neither Connecting nor in Delay has no write event and no timer -/
-theorem CnOk.idle {c : Cn} (h : CnOk c) (h1 : c.st ≠ .connecting) (h2 : c.st ≠ .delay) :
-    c.pend = none ∧ c.deadline = none := by
-  constructor
-  · cases hp : c.pend with
-    | none => rfl
-    | some l => exact absurd (h.1.mp (by simp [hp])) h1
-  · cases hd : c.deadline with
-    | none => rfl
-    | some d => exact absurd (h.2.mp (by simp [hd])) h2
-
-theorem cnStop_idle (n : N) (w : Who) : ((cnStop n w).cn w).st ≠ .connecting ∧ ((cnStop n w).cn w).st ≠ .delay := by
-  unfold cnStop; simp only
-  split
-  · exact cn_setCn_idle _ _ _ (by simp) (by simp)
-  · exact cn_setCn_idle _ _ _ (by simp) (by simp)
-  · rename_i h1 h2
-    exact ⟨fun h => h1 h, fun h => h2 h⟩
-
 theorem UI_svShut (n : N) (t : Nat) (h : UI n) : UI (svShut n t).1 := by
   unfold svShut; split
   · exact h
@@ -367,10 +386,10 @@ theorem UI_clShut (n : N) (i : Nat) (h : UI n) : UI (clShut n i).1 := by
     · exact h
   · exact h
 
-theorem UI_foldCloseSNow (l : List Nat) (k : N) (hk : UI k) : UI (l.foldl (fun n l => n.closeSNow l) k) := by
+theorem UI_foldCloseSNow (l : List Nat) (k : N) (hk : UI k) : UI (l.foldl (fun n l => (n.closeSNow l).markRst l) k) := by
   induction l generalizing k with
   | nil => exact hk
-  | cons e l ih => exact ih _ (hk.closeSNow _)
+  | cons e l ih => exact ih _ ((hk.closeSNow _).setLink _ _)
 
 theorem UI_svCleanup (cfg : Cfg) (hf : cfg.fix = true ∧ cfg.fix2 = true ∧ cfg.fix3 = true) (n : N) (h : UI n) :
     UI (svCleanup cfg n) := by
@@ -385,14 +404,6 @@ theorem UI_clCleanup (n : N) (i : Nat) (h : UI n) : UI (clCleanup n i) := by
     have hid := cnStop_idle (clStop n i) (.cl i)
     have hi := (client_cnOk h1 i).idle hid.1 hid.2
     exact h1.setClient i _ ⟨by simp; exact hi.1, by simp; exact hi.2⟩
-
-theorem UI_knCleanup (n : N) (h : UI n) : UI (knCleanup n) := by
-  unfold knCleanup; split
-  · exact h
-  · have h1 := UI_cnStop n .kn h
-    have hid := cnStop_idle n .kn
-    have hi := h1.kn.idle hid.1 hid.2
-    exact ⟨h1.uaf, h1.c0, h1.c1, ⟨by simp; exact hi.1, by simp; exact hi.2⟩⟩
 
 theorem UI_runAct (cfg : Cfg) (hf : cfg.fix = true ∧ cfg.fix2 = true ∧ cfg.fix3 = true) (x : Ctx) (n : N) (a : Act) (h : UI n) : UI (runAct cfg x n a) := by
   cases a with
@@ -597,6 +608,22 @@ theorem UI_fireTimer (cfg : Cfg) (hf : cfg.fix = true ∧ cfg.fix2 = true ∧ cf
     | raw => exact h2
   · exact h
 
+theorem UI_fireAll (cfg : Cfg) (hf : cfg.fix = true ∧ cfg.fix2 = true ∧ cfg.fix3 = true) (fuel : Nat) :
+    ∀ (n : N), UI n → UI (fireAll cfg fuel n) := by
+  have key : ∀ (l : List (Who × Nat × Nat)) (k : N), UI k → UI (l.foldl (fun n t => fireTimer cfg n t.1) k) := by
+    intro l
+    induction l with
+    | nil => intro k hk; exact hk
+    | cons e l ih => intro k hk; exact ih _ (UI_fireTimer cfg hf _ _ hk)
+  induction fuel with
+  | zero => intro n h; exact h
+  | succ f ih =>
+      intro n h
+      unfold fireAll
+      split
+      · exact h
+      · exact ih _ (key _ _ h)
+
 theorem UI_step (cfg : Cfg) (hf : cfg.fix = true ∧ cfg.fix2 = true ∧ cfg.fix3 = true) (n : N) (op : Op) (h : UI n) : UI (step cfg n op).1 := by
   cases op with
   | svInit => simp only [step]; split; exact h; split <;> exact h.same ⟨rfl, rfl, rfl, rfl⟩
@@ -661,12 +688,9 @@ theorem UI_step (cfg : Cfg) (hf : cfg.fix = true ∧ cfg.fix2 = true ∧ cfg.fix
   | rawHold b => simp only [step]; split <;> exact h.same ⟨rfl, rfl, rfl, rfl⟩
   | adv ms =>
       simp only [step]
-      have key : ∀ (l : List (Who × Nat × Nat)) (k : N), UI k → UI (l.foldl (fun n t => fireTimer cfg n t.1) k) := by
-        intro l
-        induction l with
-        | nil => intro k hk; exact hk
-        | cons e l ih => intro k hk; exact ih _ (UI_fireTimer cfg hf _ _ hk)
-      exact key _ _ (h.same ⟨rfl, rfl, rfl, rfl⟩)
+      exact UI_fireAll cfg hf _ _ (h.same ⟨rfl, rfl, rfl, rfl⟩)
+  | knDelay tbl => exact ⟨h.uaf, h.c0, h.c1, h.kn⟩
+  | knDelayAct tbl k cl => exact ⟨h.uaf, h.c0, h.c1, h.kn⟩
   | budget k => exact h.same ⟨rfl, rfl, rfl, rfl⟩
   | fault kind k => simp only [step]; split <;> exact h.same ⟨rfl, rfl, rfl, rfl⟩
 
@@ -682,7 +706,10 @@ theorem UI_drain (cfg : Cfg) (hf : cfg.fix = true ∧ cfg.fix2 = true ∧ cfg.fi
         simp only
         split
         · exact h'
-        · exact ih _ (h'.same ⟨rfl, rfl, rfl, rfl⟩)
+        · have h1 := UI_fireAll cfg hf timerFuel
+            { n.endPass with qn := [], qlate := [], lastFds := (passOrder n.endPass (n.endPass.qn ++ n.endPass.qlate)).1 }
+            (h'.same ⟨rfl, rfl, rfl, rfl⟩)
+          exact ih _ (h1.same ⟨rfl, rfl, rfl, rfl⟩)
 
 theorem UI_stepQ (cfg : Cfg) (hf : cfg.fix = true ∧ cfg.fix2 = true ∧ cfg.fix3 = true) (n : N) (op : Op) (h : UI n) : UI (stepQ cfg n op) := by
   unfold stepQ; split
